@@ -6,6 +6,6 @@ if [ -n "$(git status --porcelain)" ]; then echo "repo dirty"; exit 2; fi
 git apply "$p" || { echo "PATCH DOES NOT APPLY"; exit 3; }
 cd /verif && timeout 1800 ./vcheck "$id" "$tier" > /tmp/trymutant.$$.log 2>&1; rc=$?
 git -C /repo checkout -- . ; git -C /repo clean -fdq
-grep -E "^VIOLATION|^KNOWN|violations=|CHECK-BROKEN|vcheck:" /tmp/trymutant.$$.log | head -8
+grep -aE "^VIOLATION|^KNOWN|violations=|CHECK-BROKEN|vcheck:" /tmp/trymutant.$$.log | head -8
 rm -f /tmp/trymutant.$$.log
 echo "exit=$rc"
